@@ -121,6 +121,8 @@ def gen(ctx):
         it = rng.choice([3, 4])
         P = rng.choice([24, 32, 48, 64])
         e1 = rng.choice([0.01, 0.02, 1.0 / 64, 0.03] if q else [0.01, 0.02, 1.0 / 64, 0.03, 0.005])
+        if e1 * (n - 1) ** 2 > 0.45 * (2 * half) ** 2:
+            e1 = 0.02       # stay inside the explicit scheme's stable range e1 <= delta^2/2 (C04_fp3_stable_range): beyond it rounding noise grows by |1 + e1 - 4 e1/delta^2| per step
         shape = rng.choice(["gauss", "gauss", "flat", "ring", "tilted"]) if n > 32 else rng.choice(["gauss", "tilted"])
         if v == 3:
             steps = int((6 if q else 12) / e1)
@@ -302,7 +304,9 @@ def oracle(ctx, c, r, dis):
         guu, gvv = last[3] / last[0], last[5] / last[0]
         decay = Fraction(math.exp(-float(e1) * c.steps))
         for name, g, s in (("Muu", guu, fix[0]), ("Mvv", gvv, fix[2])):
-            tol = (Fraction(3, 1000) if exact_rec else Fraction(8, 100)) * s + 8 * decay * s * max(Fraction(c.zoom) ** 2, 1)
+            # 4-point stencil: its own discretisation error differs from the 3-point one's -delta^2/2 by O(delta^2) (coarse grids:
+            # n = 48 on +-13 has delta^2/2 = 0.15 and settles 14 % above the 3-point fixed point, at 0.95 in natural units)
+            tol = (Fraction(3, 1000) if exact_rec else Fraction(8, 100) + d * d / 2) * s + 8 * decay * s * max(Fraction(c.zoom) ** 2, 1)
             if abs(g - s) > tol:
                 ctx.violation("impl-oracle", "%s/M0 after %d steps is not at the fixed point of the recurrence" % (name, c.steps),
                               case=c.replay(), observed=float(g), expected=float(s), sig=dict(sig, clause="equilibrium"))
@@ -437,6 +441,7 @@ def run(ctx):
     res = run_evo(ctx, cases)
     for c in cases:
         oracle(ctx, c, res[c.cid], dis)
+    __import__("c04_fix").run(ctx, dis, __import__("types").SimpleNamespace(**globals()))   # proved fixed point / contraction / linear-interpolation law vs long API runs
     ctx.sample(cases[0].describe())
     ctx.sample(cases[4].describe())
     program_level(ctx)
